@@ -197,7 +197,7 @@ func (g *tierGate) openAll() {
 
 func init() {
 	checks["C03"] = func(rep *Report, tier string, seed int64) {
-		rep.Rule = "locked L1/L2 stacks (multi- and single-reader mode, main and batch port sharing one lock set): (a) exhaustive schedules: two connections each issue one command (thorough: also 2+1 commands) on the same key, for every pair of command kinds from {set, add, replace, append, prepend, delete, touch, get, gat} with the key initially absent, present in both tiers, or present in L2 only; a gate in the fake backends holds every backend request, and every interleaving of the two connections' backend requests that the key locks admit is executed (stateless exploration: each run's schedule is recorded and every feasible alternative choice is run in turn); (b) seeded random concurrent histories of 3..6 connections x 8 commands over 2 keys without the gate; oracle: the logged lock modes (write lock for every mutating command and get-and-touch, read locks for get); for pairs whose locks exclude each other (a write lock involved, or single-reader mode) the backend requests must form two blocks and replies and final contents of both tiers must equal the compiled Lean model running the two commands whole in block order (the statement of C03_serializable, replayed); then every history is checked for linearizability against the single-map model per key (porcupine), and when all commands have completed every entry L1 serves must equal L2's entry; distinct = distinct (configuration, command pair, initial state, schedule) / (configuration, history)"
+		rep.Rule = "locked L1/L2 stacks (multi- and single-reader mode, main and batch port sharing one lock set): (a) exhaustive schedules: two connections each issue one command (thorough: also 2+1 commands) on the same key, for every pair of command kinds from {set, add, replace, append, prepend, delete, touch, get, gat} with the key initially absent, present in both tiers, or present in L2 only; a gate in the fake backends holds every backend request, and every interleaving of the two connections' backend requests that the key locks admit is executed (stateless exploration: each run's schedule is recorded and every feasible alternative choice is run in turn); (b) seeded random concurrent histories of 3..6 connections x 8 commands over 2 keys without the gate; oracle: the logged lock modes (write lock for every mutating command and get-and-touch, read locks for get); for pairs whose locks exclude each other (a write lock involved, or single-reader mode) the backend requests must form two blocks, and for every pair (two gets under shared read locks included) replies and final contents of both tiers must equal the compiled Lean model running the two commands whole in the order in which they first reached a backend (the statements of C03_serializable / C03_linearizable_shared_reads, replayed); then every history is checked for linearizability against the single-map model per key (porcupine), and when all commands have completed every entry L1 serves must equal L2's entry; distinct = distinct (configuration, command pair, initial state, schedule) / (configuration, history)"
 		distinct := map[string]bool{}
 		drv := StartDriver()
 		defer drv.Close()
@@ -439,12 +439,19 @@ func init() {
 						gets++
 					}
 				}
-				if single && (cfg.Locked == "sr" || gets < 2) {
+				if single {
+					// two gets under shared read locks (multi-reader mode) may interleave: then only the
+					// answers and the final contents are compared (C03_linearizable_shared_reads)
+					shared := cfg.Locked != "sr" && gets == 2
 					var order []int
 					seenP := map[int]bool{}
 					last := -1
 					for _, pi := range schedule {
 						if pi == last {
+							continue
+						}
+						if seenP[pi] && shared {
+							last = pi
 							continue
 						}
 						if seenP[pi] {
